@@ -30,7 +30,10 @@ def gen_case(rng, tier, index):
                              formats=("fb", "fb", "npz", "npz", "fb", "npz",
                                       "tfrec"),
                              kinds=("root", "root", "root", "sub", "multi"),
-                             meta_modes=("none", "some", "runs", "runs"))
+                             meta_modes=("none", "some", "runs", "runs"),
+                             bad_rate=rng.choice([0, 0, 0.15]),
+                             bad_kinds=("shape", "rank", "missing",
+                                        "unsafe_dtype_fb", "extra_tfrec"))
     return C.base_case(rng, hist)
 
 
